@@ -78,6 +78,8 @@ def first_diff(a, b):
 def run_case(ctx, case):
     import bob
     model, edits = case["model"], case["edits"]
+    if case.get("toolchains") is not None:
+        model = projgen.add_toolchains(model, case["toolchains"])
     if case.get("sbprovider"):
         from checks.c03_idpurity import with_sandbox_provider
         model = with_sandbox_provider(model)
@@ -135,7 +137,8 @@ def run_case(ctx, case):
 def case_st(quick):
     return st.fixed_dictionaries({"model": projgen.model_st(4, 6 if quick else 7, richness=1, dense=True),
                                   "edits": st.lists(projgen.edit_st, min_size=2, max_size=4 if quick else 6),
-                                  "sandbox": st.integers(0, 255), "sbprovider": st.booleans()})
+                                  "sandbox": st.integers(0, 255), "sbprovider": st.booleans(),
+                                  "toolchains": st.sampled_from([None, 0, 1, 2, 3, 4, 5])})
 
 def shard(ctx):
     run_hypothesis(ctx, case_st(ctx.quick()), lambda c: run_case(ctx, c), ctx.n(640, 12000), shrink=False, minimize=("edits",))
